@@ -5,6 +5,7 @@
 -/
 import Csvq.Lemmas.Cursor
 import Csvq.Gen.CursorLoop
+import Csvq.Ref.CursorOps
 namespace Csvq.C16
 open Csvq Csvq.Cursor
 
@@ -48,6 +49,93 @@ theorem gen_open_close_facts :
     ∧ Gen.CursorFetch.closeGuards = ["c.isPseudo => NewPseudoCursorError"]
     ∧ Gen.CursorFetch.closeAssigns = ["view = nil", "index = 0", "fetched = false"] := by
   decide
+
+/-! ## T-gen, the rest of cursor.go / processor.go / eval.go / reference_scope.go the model mirrors
+     (Gen/CursorOps.lean, regenerated on every run; skeleton expectations in Ref/CursorOps.lean) -/
+
+/-- `(*Cursor).Open`, translated from the Go source: refuses an open cursor, otherwise (the query having been
+    evaluated to `rows`) view := rows, index := −1, fetched := false — the model's `open`, for every state -/
+theorem gen_open_eq_model {α} (c : CState α) (rows : List α) :
+    interpState rows (Gen.CursorOps.cursorOpen false c.viewNil c.indexField c.fetchedField false) = some (c.open rows) := by
+  cases c <;> rfl
+
+/-- `(*Cursor).Close`: view := nil (index := 0, fetched := false) whatever the state — the model's `close` -/
+theorem gen_close_eq_model {α} (c : CState α) (rows : List α) :
+    interpState rows (Gen.CursorOps.cursorClose false c.viewNil c.indexField c.fetchedField false) = some (.ok c.close) := by
+  cases c <;> rfl
+
+/-- the guards in front: a pseudo cursor can be neither opened nor closed; a failing query leaves an
+    error and NO assignment (the cursor stays closed) -/
+theorem gen_open_close_guards (vn f : Bool) (i : Int) (e : Bool) :
+    Gen.CursorOps.cursorOpen true vn i f e = .err "NewPseudoCursorError" ∧
+    Gen.CursorOps.cursorClose true vn i f e = .err "NewPseudoCursorError" ∧
+    Gen.CursorOps.cursorOpen false true i f true = .err "err" ∧
+    Gen.CursorOps.cursorOpen false false i f e = .err "NewCursorOpenError" := by
+  refine ⟨rfl, rfl, rfl, rfl⟩
+
+/-- `IsOpen` is `view != nil`; `Pointer` (read by the harness for `index_inv`) is the index field -/
+theorem gen_isOpen_pointer_eq_model {α} (c : CState α) :
+    Gen.CursorOps.cursorIsOpen c.viewNil = c.isOpen ∧ Gen.CursorOps.cursorPointer c.indexField = c.indexField := by
+  cases c <;> exact ⟨rfl, rfl⟩
+
+/-- `CursorMap.Declare`: a name that exists (under strings.ToUpper) is the "redeclared" error, otherwise a
+    NEW cursor (closed, see `Ref.fxNewCursor`) is stored — the model's `declare` -/
+theorem gen_declare_eq_model {α} (s : Scope α) (n : String) :
+    (Gen.CursorOps.mapDeclare (lookup s (key n)).isSome = ([], "NewCursorRedeclaredError")
+        ∧ step s (.declare n) = (s, .err .redeclared)) ∨
+    (Gen.CursorOps.mapDeclare (lookup s (key n)).isSome = (["m.Store(expr.Cursor.Literal, NewCursor(expr))"], "nil")
+        ∧ step s (.declare n) = ((key n, .closed) :: s, .ok)) := by
+  cases h : lookup s (key n) with
+  | some c => left; exact ⟨rfl, by simp [step, h]⟩
+  | none => right; exact ⟨rfl, by simp [step, h]⟩
+
+/-- `CursorMap.Dispose`: found and not pseudo → deleted; not found → errUndeclaredCursor (the scope walk
+    turns it into the "undeclared" error when no block knows the name) — the model's `dispose` -/
+theorem gen_dispose_eq_model {α} (s : Scope α) (n : String) :
+    (Gen.CursorOps.mapDispose (lookup s (key n)).isSome false = (["m.Delete(name.Literal)"], "nil")
+        ∧ step s (.dispose n) = (erase s (key n), .ok)) ∨
+    (Gen.CursorOps.mapDispose (lookup s (key n)).isSome false = ([], "errUndeclaredCursor")
+        ∧ step s (.dispose n) = (s, .err .undeclared)) := by
+  cases h : lookup s (key n) with
+  | some c => left; exact ⟨rfl, by simp [step, h]⟩
+  | none => right; exact ⟨rfl, by simp [step, h]⟩
+
+/-- pseudo cursors: AddPseudoCursor refuses an existing name like Declare; Dispose refuses a pseudo cursor -/
+theorem gen_pseudo_cursor_map (p : Bool) :
+    Gen.CursorOps.mapAddPseudoCursor p
+      = (if p then ([], "NewCursorRedeclaredError") else (["m.Store(name.Literal, NewPseudoCursor(name.Literal, values))"], "nil"))
+    ∧ Gen.CursorOps.mapDispose true true = ([], "errPseudoCursor") := by
+  cases p <;> exact ⟨rfl, rfl⟩
+
+/-- `evalCursorStatus`: IS [NOT] OPEN / IS [NOT] IN RANGE pass the scope's error through and negate with the
+    three-valued NOT — the model's `cursorStatus` -/
+theorem gen_status_eq_model (neg : Bool) (r other : Except Err Tern) (z : Tern) :
+    Gen.CursorOps.evalCursorStatus .OPEN neg (exceptToOption r) (exceptToOption other) z = exceptToOption (cursorStatus neg r) ∧
+    Gen.CursorOps.evalCursorStatus .RANGE neg (exceptToOption other) (exceptToOption r) z = exceptToOption (cursorStatus neg r) := by
+  cases r <;> cases neg <;> exact ⟨rfl, rfl⟩
+
+/-- NOT UNKNOWN is UNKNOWN: before the first FETCH, IS NOT IN RANGE is as undetermined as IS IN RANGE -/
+theorem not_in_range_unknown_before_first_fetch {α} (rows : List α) (i : Int) :
+    cursorStatus true (CState.opened rows i false).isInRange = .ok .U := rfl
+
+/-- the WHILE IN skeleton is the one `loopS` / `whileIn` assume (see Ref/CursorOps.lean) -/
+theorem gen_while_in_skeleton_eq_ref : Gen.CursorOps.fxWhileInCursor = Ref.fxWhileInCursor := by decide
+
+theorem gen_constructors_eq_ref :
+    Gen.CursorOps.fxNewCursor = Ref.fxNewCursor ∧ Gen.CursorOps.fxNewPseudoCursor = Ref.fxNewPseudoCursor := by decide
+
+theorem gen_cursor_map_eq_ref :
+    Gen.CursorOps.fxMapStore = Ref.fxMapStore ∧ Gen.CursorOps.fxMapLoad = Ref.fxMapLoad ∧
+    Gen.CursorOps.fxMapDelete = Ref.fxMapDelete ∧ Gen.CursorOps.fxMapExists = Ref.fxMapExists ∧
+    Gen.CursorOps.fxMapOpen = Ref.fxMapOpen ∧ Gen.CursorOps.fxMapClose = Ref.fxMapClose ∧
+    Gen.CursorOps.fxMapFetch = Ref.fxMapFetch ∧ Gen.CursorOps.fxMapIsOpen = Ref.fxMapIsOpen ∧
+    Gen.CursorOps.fxMapIsInRange = Ref.fxMapIsInRange ∧ Gen.CursorOps.fxMapCount = Ref.fxMapCount := by decide
+
+theorem gen_scope_walk_eq_ref :
+    Gen.CursorOps.fxScopeDeclareCursor = Ref.fxScopeDeclareCursor ∧ Gen.CursorOps.fxScopeDisposeCursor = Ref.fxScopeDisposeCursor ∧
+    Gen.CursorOps.fxScopeOpenCursor = Ref.fxScopeOpenCursor ∧ Gen.CursorOps.fxScopeCloseCursor = Ref.fxScopeCloseCursor ∧
+    Gen.CursorOps.fxScopeFetchCursor = Ref.fxScopeFetchCursor ∧ Gen.CursorOps.fxScopeCursorIsOpen = Ref.fxScopeCursorIsOpen ∧
+    Gen.CursorOps.fxScopeCursorIsInRange = Ref.fxScopeCursorIsInRange ∧ Gen.CursorOps.fxScopeCursorCount = Ref.fxScopeCursorCount := by decide
 
 /-! ## index invariant -/
 
